@@ -671,10 +671,11 @@ def field_of(term, field):
 
 
 def arg_bounds(fn, P, call, ai):
-    """(lower, upper, n): on every value path that makes the call `call` (a node), is its argument ai known to
-    be bounded below by a number (k < v, k <= v) and bounded above (v < t, v <= t)?  Decides
-    range tests that reach the call through a flag or a helper's status instead of dominating it.  The paths
-    are those of the innermost enclosing loop's body, or of the function.  n is the number of paths seen."""
+    """(lower, upper, n, facts): on every value path that makes the call `call` (a node), is its argument ai
+    known to be bounded below by a number (k < v, k <= v) and bounded above (v < t, v <= t)?  Decides range
+    tests that reach the call through a flag or a helper's status instead of dominating it.  The paths are
+    those of the innermost enclosing loop's body, or of the function.  n is the number of paths seen; facts
+    is the set of orderings (a, "<" | "<=", b), with "v" standing for the argument, known on all of them."""
     import re as _re
     loop = None
     for a in fn.ancestors(call):
@@ -684,6 +685,7 @@ def arg_bounds(fn, P, call, ai):
     pts = loop_paths(fn, loop, P) if loop is not None else run_paths(fn, P)
     lo = hi = True
     n = 0
+    facts = None
     num = lambda t: _re.match(r"^-?[\d.]+$", t) is not None
     for pt in pts:
         for ev_ in pt.events:
@@ -692,12 +694,17 @@ def arg_bounds(fn, P, call, ai):
             n += 1
             v = ev_[2][ai]
             l_ = h_ = False
+            fs = set()
             for k_, pol in pt.atoms.items():
-                if k_[0] not in ("<", "<="):
+                if k_[0] != "<" or v not in (k_[1], k_[2]):
                     continue
-                if (k_[2] == v and num(k_[1]) and pol) or (k_[1] == v and num(k_[2]) and not pol):
+                a_, b_ = ("v" if k_[1] == v else k_[1]), ("v" if k_[2] == v else k_[2])
+                fs.add((a_, "<", b_) if pol else (b_, "<=", a_))
+            for (a_, op_, b_) in fs:
+                if b_ == "v" and num(a_):
                     l_ = True
-                if (k_[1] == v and pol) or (k_[2] == v and not pol):
+                if a_ == "v":
                     h_ = True
+            facts = fs if facts is None else (facts & fs)
             lo, hi = lo and l_, hi and h_
-    return (lo and n > 0, hi and n > 0, n)
+    return (lo and n > 0, hi and n > 0, n, facts or set())
